@@ -238,7 +238,7 @@ def run_unit(ctx, u):
         pats = [(j,) for j in range(n)]
         if t >= 2:
             pairs = list(itertools.combinations(range(n), 2))
-            pats += pairs if n <= 15 else rng.sample(pairs, 60 if q else 400)
+            pats += pairs if n <= 15 else rng.sample(pairs, min(len(pairs), 60 if q else 400))
         for w in range(3, t + 1):
             if n <= 15 and w == 3:
                 pats += list(itertools.combinations(range(n), 3))  # every triple: exactly-t patterns are where decoders break
